@@ -1,8 +1,6 @@
 package run
 
 import (
-	"bufio"
-	"bytes"
 	"crypto/sha256"
 	"encoding/json"
 	"fmt"
@@ -517,47 +515,21 @@ func classifyDeath(stderr string, hang bool) (class, sig string) {
 	return "death", "worker died: " + head(strings.TrimSpace(stderr), 80)
 }
 
-// readJournal returns the index of the case in flight when the worker died.
+// readJournal returns the index of the case in flight when the worker died
+// (see the slot layout in run.go).
 func readJournal(path string) (idx int, desc json.RawMessage, hang bool) {
 	idx = -1
-	f, err := os.Open(path)
-	if err != nil {
+	b, err := os.ReadFile(path)
+	if err != nil || len(b) < 24 {
 		return
 	}
-	defer f.Close()
-	sc := bufio.NewScanner(f)
-	sc.Buffer(make([]byte, 1<<20), 4<<20)
-	open := -1
-	var lastDesc []byte
-	descIdx := -1
-	for sc.Scan() {
-		line := sc.Bytes()
-		if len(line) < 3 {
-			continue
-		}
-		parts := bytes.SplitN(line, []byte(" "), 3)
-		n, _ := strconv.Atoi(string(parts[1]))
-		switch line[0] {
-		case 'S':
-			open = n
-		case 'E':
-			if open == n {
-				open = -1
-			}
-		case 'D':
-			if len(parts) == 3 {
-				lastDesc = append(lastDesc[:0], parts[2]...)
-				descIdx = n
-			}
-		case 'H':
-			hang = true
-			open = n
-		}
-	}
-	idx = open
-	if descIdx == idx && lastDesc != nil {
-		if json.Valid(lastDesc) {
-			desc = append(json.RawMessage(nil), lastDesc...)
+	idx = int(get64(b[0:]))
+	hang = get64(b[8:]) != 0
+	n := int(get64(b[16:]))
+	if idx >= 0 && n > 0 && 24+n <= len(b) {
+		d := b[24 : 24+n]
+		if json.Valid(d) {
+			desc = append(json.RawMessage(nil), d...)
 		}
 	}
 	return
